@@ -167,7 +167,12 @@ def _stage(tree, fn, call, is_method: bool, k: int):
     """how the call `call` (somewhere in `tree`) is replaced by the body of fn: (statement list, statement, new statements, (call, value) or None)"""
     site = _find_site(tree, call)
     if site is None:
-        return None
+        # inside a comprehension / lambda / conditional operand: a helper that is ONE expression (`return E`) can still be put back - the call is
+        # replaced by E with the arguments in the parameters' places (each argument a plain path, or its parameter read exactly once)
+        e = _as_expression(fn, call, is_method)
+        if e is None:
+            return None
+        return ("expr", call, e, None)
     lst, i, st, direct = site
     if direct and isinstance(st, ast.Expr):
         make = lambda r: (ast.copy_location(ast.Expr(value=r.value), r) if r.value is not None and not isinstance(r.value, (ast.Constant, ast.Name)) else None)
@@ -208,8 +213,54 @@ def _stage(tree, fn, call, is_method: bool, k: int):
     return (lst, st, new + [st], (call, holder["v"]))
 
 
+def _as_expression(fn, call, is_method: bool):
+    body = [s_ for s_ in fn.body if not (isinstance(s_, ast.Expr) and isinstance(s_.value, ast.Constant))]
+    if len(body) != 1 or not isinstance(body[0], ast.Return) or body[0].value is None:
+        return None
+    params = [a.arg for a in fn.args.args]
+    if is_method and not _is_static(fn):
+        if not isinstance(call.func, ast.Attribute) or not _simple(call.func.value):
+            return None
+        binding = {params[0]: call.func.value}
+        params = params[1:]
+    else:
+        binding = {}
+    if len(call.args) > len(params) or any(isinstance(a, ast.Starred) for a in call.args):
+        return None
+    for p_, a in zip(params, call.args):
+        binding[p_] = a
+    for k in call.keywords:
+        if k.arg is None or k.arg not in params or k.arg in binding:
+            return None
+        binding[k.arg] = k.value
+    allp = [a.arg for a in fn.args.args]
+    for p_, d in zip(allp[len(allp) - len(fn.args.defaults):], fn.args.defaults):
+        if p_ not in binding:
+            if not isinstance(d, ast.Constant):
+                return None
+            binding[p_] = d
+    if set(allp) - set(binding):
+        return None
+    uses = {}
+    for n in ast.walk(body[0].value):
+        if isinstance(n, ast.Name) and isinstance(n.ctx, ast.Load):
+            uses[n.id] = uses.get(n.id, 0) + 1
+    for p_, a in binding.items():
+        if not _simple(a) and uses.get(p_, 0) > 1:
+            return None
+
+    class Sub(ast.NodeTransformer):
+        def visit_Name(self, n):
+            if n.id in binding and isinstance(n.ctx, ast.Load):
+                return ast.copy_location(copy.deepcopy(binding[n.id]), n)
+            return n
+    return Sub().visit(copy.deepcopy(body[0].value))
+
+
 def _apply(staged):
     for lst, st, new, repl in staged:
+        if lst == "expr":
+            continue
         if repl is not None:
             _replace_node(st, repl[0], repl[1])
         for s_ in new:
@@ -256,9 +307,14 @@ def undo_pulled_up_methods(modules: Dict[str, ast.Module], known_quals: set, log
             if one is None:
                 staged = None
                 break
+            if one[0] == "expr":
+                one = ("expr", one[1], one[2], t2)
             staged.append(one)
         if not staged:
             continue
+        for lst, st, new, repl in staged:
+            if lst == "expr":
+                _replace_node(repl, st, ast.fix_missing_locations(ast.copy_location(new, st)))
         _apply(staged)
         cls.body.remove(fn)
         if not cls.body:
@@ -307,6 +363,9 @@ def undo_extractions(modules: Dict[str, ast.Module], known_quals: set, log: List
                 if not ok or not staged:
                     continue
                 for lst, st, new, repl in staged:
+                    if lst == "expr":
+                        _replace_node(tree, st, ast.fix_missing_locations(ast.copy_location(new, st)))
+                        continue
                     if repl is not None:
                         _replace_node(st, repl[0], repl[1])
                     for s_ in new:
